@@ -632,6 +632,10 @@ func (a *vfActor) exec(ctx vivid.ActorContext, c *vfCmd) {
 		if r := w.ref(c.Arg.(string)); r != nil {
 			ctx.Watch(r)
 		}
+	case "watchref": // watch through a ref the sender built itself (the target may not be known by name yet)
+		if r, ok := c.Arg.(vivid.ActorRef); ok && r != nil {
+			ctx.Watch(r)
+		}
 	case "unwatch":
 		if r := w.ref(c.Arg.(string)); r != nil {
 			ctx.Unwatch(r)
